@@ -53,10 +53,10 @@ type Complex struct{ C complex128 }
 
 // Seg is a piece of a string.
 type Seg struct {
-	Lit  string
-	T    *smt.Term // String-sorted variable/term
-	Itoa *smt.Term // BV64: decimal rendering of a signed integer
-	ItoaV BV       // the same word with its integer twin, if any
+	Lit   string
+	T     *smt.Term // String-sorted variable/term
+	Itoa  *smt.Term // BV64: decimal rendering of a signed integer
+	ItoaV BV        // the same word with its integer twin, if any
 }
 
 type Str struct {
